@@ -1,7 +1,8 @@
 (* Merge.v — the two symbol-table loops of the parser.  Definitions only.
-   * equation_symbols : the per-equation loop of parse_equation (fsic/parser.py:630-673), with the
-     FUNCTION quirk: a function symbol is *assigned* into the dict (overwriting, in place, a variable of
-     the same name — finding #19) and is never combined.
+   * equation_symbols : the per-equation loop of parse_equation (fsic/parser.py:630-670).  Since fix b45daa1 a
+     FUNCTION symbol is combined with any earlier use of its name like every other symbol: repeated calls collapse
+     to one symbol, a name used as a function and as a variable / parameter / error is a SymbolError in either
+     order (finding #19 repaired).  The `functions` argument is kept for compatibility and is no longer used.
    * merge_symbols    : the cross-equation loop of parse_model (fsic/parser.py:763-777); verbatim
      symbols (name None) are collected separately and appended at the end. *)
 From Coq Require Import String Ascii List Bool ZArith.
@@ -26,11 +27,7 @@ Fixpoint equation_symbols_go (equation code : string) (terms : list term)
   | t :: rest =>
     match ttype t with
     | TVerbatim => equation_symbols_go equation code rest symbols functions
-    | TFunction =>
-      let sym := mkSymbol (Some (tname t)) TFunction (tindex t) (tindex t) None None in
-      if mem_string (tname t) functions then equation_symbols_go equation code rest symbols functions
-      else equation_symbols_go equation code rest (dict_set (tname t) sym symbols) (tname t :: functions)
-    | ty =>
+    | ty =>          (* b45daa1: FUNCTION symbols are combined like every other symbol (no separate `functions` dict any more) *)
       let sym := match ty with
                  | TEndogenous => mkSymbol (Some (tname t)) ty (tindex t) (tindex t) (Some equation) (Some code)
                  | _ => mkSymbol (Some (tname t)) ty (tindex t) (tindex t) None None
